@@ -97,11 +97,13 @@ def plan_of(modname: str) -> list[dict]:
     if plan is None:
         raise RuntimeError("no PLAN in " + modname)
     return [
-        {"module": modname, "fn": p[0], "tier": p[1], "timeout": float(p[2]), "meta": meta or {}, "opts": (p[3] if len(p) > 3 else {})}
+        {"module": modname, "fn": p[0], "tier": p[1], "timeout": min(float(p[2]), _BUDGET_CAP), "meta": meta or {}, "opts": (p[3] if len(p) > 3 else {})}
         for p in plan
     ]
 
 
+# VF_BUDGET_CAP=<seconds>: smoke run - every obligation gets at most this budget (verdicts are then mostly "explored, not exhausted")
+_BUDGET_CAP = float(os.environ.get("VF_BUDGET_CAP") or 10 ** 9)
 _VERDICT = re.compile(r"^(?P<file>[^:]+):(?P<line>\d+): (?P<kind>error|info|warning): (?P<msg>.*)$")
 
 
